@@ -81,6 +81,33 @@ example : (match exState.settleOrders "mkt" "feecol" [1, 2] [11, 12, 13] true wi
 example : exState.settleOrders "mkt" "feecol" [1, 2] [11, 12, 13] false = .error .expectPartial := by decide
 example : exState.settleOrders "mkt" "feecol" [1, 7] [11, 12, 13] true = .error .order := by decide
 
+/-- through `ValidateBasic` (hypothesis of `msgMarketSettle_covered` / `settled_orders_leave_store`): the
+same request is accepted as a message, and only the remainder of bid 13 is still in the store -/
+example : (match exState.msgMarketSettle "mkt" "feecol" [1, 2] [11, 12, 13] true with
+    | .ok s' => s'.orders.map (fun o => (o.id, o.assets, o.price)) == [(13, 5, 60)]
+    | .error _ => false) = true := by decide
+
+/-- requests that name an order twice (a list of exactly two, adjacent, apart, on both sides), no
+order or order zero are refused by `ValidateBasic` — while the keeper function behind it, handed the
+id list `[12, 12]` directly, would fill bid 12 twice (so the refusal is what `repeated_ids_rejected`
+rests on, not the keeper) -/
+example : exState.msgFillBids "mkt" "feecol" "S9" [12, 12] [("apple", 8)] [] = .error .dupIds := by decide
+example : exState.msgFillBids "mkt" "feecol" "S9" [11, 12, 11] [("apple", 16)] [] = .error .dupIds := by decide
+example : exState.msgFillAsks "mkt" "feecol" "B9" [1, 1] ("usd", 200) [] = .error .dupIds := by decide
+example : exState.msgMarketSettle "mkt" "feecol" [1, 2] [11, 12, 13, 12] true = .error .dupIds := by decide
+example : exState.msgMarketSettle "mkt" "feecol" [1, 2, 11] [11, 12, 13] true = .error .bothSides := by decide
+example : exState.msgMarketSettle "mkt" "feecol" [] [11] false = .error .noIds := by decide
+example : exState.msgFillBids "mkt" "feecol" "S9" [11, 0] [("apple", 6)] [] = .error .zeroId := by decide
+example : (match exState.fillBids "mkt" "feecol" "S9" [12, 12] [("apple", 8)] [] with
+    | .ok s' => bal s'.ledger "X1" "usd" == -96 && bal s'.ledger "X1" "apple" == 8
+    | .error _ => false) = true := by decide
+example : exState.apply "mkt" "feecol" (.fillBids "S9" [12, 12] [("apple", 8)] []) = exState := by decide
+
+/-- an accepted `MsgFillBids` (hypothesis of `msgFillBids_once`) -/
+example : (match exState.msgFillBids "mkt" "feecol" "S9" [11, 12] [("apple", 10)] [("usd", 2)] with
+    | .ok s' => s'.orders.map (·.id) == [1, 2, 13]
+    | .error _ => false) = true := by decide
+
 /-- a history: create two orders, settle them with a partial ask left, fill the rest of the ask as a
 buyer — the store ends empty and `X1`/`B1` hold what they bought -/
 example :
